@@ -600,7 +600,7 @@ CONSTRAINT Prune
 UNCOPIED = {"plain": ["tinc"], "cont": ["traj", "tasg", "tinc", "tm", "mdef"], "htn": ["traj", "tasg", "tinc", "tm", "mdef"], "ma": ["idef"]}
 
 
-def t1(ctx, label, pre, post, total, small, configs, full_universe=False, strict=False):
+def t1(ctx, label, pre, post, total, small, configs, full_universe=False, strict=False, need=("Pre", "DoClone", "Post")):
     d = ctx.sub("t1-" + label)
     cfg = T1_CFG % dict(
         tim='"t1", "t2"' if full_universe else '"t1"',
@@ -624,7 +624,7 @@ def t1(ctx, label, pre, post, total, small, configs, full_universe=False, strict
             a = names.get(int(m.group(1)))
             if a:
                 taken[a] = max(taken[a], int(m.group(2)))
-        idle = [a for a in ("Pre", "DoClone", "Post") if not taken.get(a)]
+        idle = [a for a in need if not taken.get(a)]
         if idle:
             raise MachineryError("T1 %s is vacuous: actions never taken: %s (%r)" % (label, idle, taken))
         res.coverage.update({a: (0, n) for a, n in taken.items()})
@@ -667,7 +667,8 @@ def run_t1(ctx):
             ctx.violation("T1|repaired|" + res3.violated, "the Impl layer with every field copied violates %s" % res3.violated,
                           {"trace": [s["vars"] for s in res3.trace]})
         # sensitivity of the invariants: leaving any single field uncopied must be noticed
-        res4, cex4 = t1(ctx, "fields", 2, 1, 2, True, "fields")
+        # (post-edits are explored for the repaired clone only: this run has none)
+        res4, cex4 = t1(ctx, "fields", 2, 1, 2, True, "fields", need=("Pre", "DoClone"))
         ctx.add_tlc("T1 sensitivity: each field uncopied on its own", res4)
         insensitive = sorted(
             "%s/%s" % (c, f) for c in CLASSES for f in ALL_FIELDS
